@@ -321,10 +321,22 @@ func runJob(j *Job) *JobResult {
 			pr := runParse(p, c, e)
 			if tmp != nil {
 				if st, err := tmp.Stat(); err == nil && st.Size() > off {
-					buf := make([]byte, st.Size()-off)
+					n := st.Size() - off
+					if pr.Outcome == "budget" || pr.Outcome == "diverge" {
+						n = 0 // a looping parse prints without end; its trace is not judged
+					} else if n > 512<<10 {
+						n = 512 << 10
+					}
+					buf := make([]byte, n)
 					tmp.ReadAt(buf, off)
 					off = st.Size()
 					pr.Trace = string(buf)
+					// keep the capture file small
+					if off > 64<<20 {
+						tmp.Truncate(0)
+						tmp.Seek(0, 0)
+						off = 0
+					}
 				}
 			}
 			r.Parses = append(r.Parses, pr)
@@ -472,6 +484,9 @@ func runInterleaved(p *Parser, j *Job, r *JobResult, budgetOf func(*Feed) int) {
 					pr := runParse(p, c, e)
 					flushTrace(t)
 					pr.Trace, t.traceBuf = t.traceBuf, ""
+					if pr.Outcome == "budget" || pr.Outcome == "diverge" {
+						pr.Trace = "" // as for solo parses: the trace of a looping parse is not kept
+					}
 					t.results = append(t.results, pr)
 				}
 			}
